@@ -1,18 +1,39 @@
-import json, os, re
+import json, os, re, subprocess
 
 from vlib import *
 
-EXT = ("NewAddress", "CurrentAddress")
-
+EXT = ("NewAddress", "CurrentAddress", "RawNextExternal", "RecoverExternal")
 
 IMPORTED = ("SpendImported", "SpendImportedDry", "FundPsbtImported")
+
+RECOVER = ("RecoverExternal", "RecoverInternal")
 
 
 def static_branch(call):
     """(scope, account, branch) of the index counter the request draws from.
-    A spend whose inputs belong to the imported account creates its change on account 0."""
-    account = 0 if call["api"] in IMPORTED else call.get("account", 0)
+    A spend whose inputs belong to the imported account creates its change on account 0;
+    recovery extends account 0; the dry-run import works on an account of its own."""
+    if call["api"] == "ImportAccountDryRun":
+        return ("dry", 0, 0)
+    account = 0 if (call["api"] in IMPORTED or call["api"] in RECOVER) else call.get("account", 0)
     return (call["scope"], account, 0 if call["api"] in EXT else 1)
+
+
+def read_table():
+    """site names and flags of the generated table of this run"""
+    out, src = {}, "unknown"
+    try:
+        txt = open(os.path.join(COQ, "Generated", "AddrSites.v")).read()
+        m = re.search(r"\(\* facts source: (\w+)", txt)
+        if m:
+            src = m.group(1)
+        for m in re.finditer(r'site_name := "([^"]+)"; site_pkg := "([^"]*)";.*?site_class := "(\w+)";.*?'
+                             r'held := (\w+); shared := (\w+); held_from := "(\w+)"', txt, re.S):
+            out[m.group(1)] = dict(pkg=m.group(2), cls=m.group(3), held=m.group(4) == "true",
+                                   shared=m.group(5) == "true", source=m.group(6))
+    except OSError:
+        pass
+    return out, src
 
 
 class C09(Check):
@@ -20,14 +41,20 @@ class C09(Check):
     RULE = ("systematic: for every ordered pair (A, B) of NewAddress, NewChangeAddress, CurrentAddress (unused and used tip), "
             "CreateSimpleTx, CreateSimpleTx dry run, FundPsbt on a real wallet.Wallet over bbolt behind the walletdb proxy, A is parked "
             "between its real commit and its OnCommit handlers and B's whole request is started in that window; the same for "
-            "spends whose inputs belong to an imported private key (CreateSimpleTx/FundPsbt from ImportedAddrAccount: their change "
-            "is created on account 0) against every account-0 request in both orders, and for requests on a second account "
-            "(own counters) against account-0 and imported-account requests; "
-            "random: 2-8 calls (API/scope mix, warm-up requests, used tip, cached or uncached account), all or some gated, "
-            "random orders of call starts and gate releases, and ungated stress runs with 6-16 goroutines. Observed: every "
-            "returned address mapped to its derivation index, the order of begin/commit/rollback/handlers events (the schedule), "
-            "key counts of the running wallet vs a fresh waddrmgr.Open on a copy of the file. "
-            "non-trivial = at least two requests derived from the same account branch; distinct by input")
+            "spends whose inputs belong to an imported private key (their change is created on account 0) against every account-0 "
+            "request in both orders, for requests on a second account, for ImportAccountDryRun (1-4 addresses per branch), and for "
+            "wallet.recovery (a chain that reports one index 0-4 above the key count as found: Extend*Addresses) against every request "
+            "kind in both orders, each followed by sequential requests (what is handed out NEXT); negative controls: an issuer that goes "
+            "to the scoped manager without the wallet's mutex, 1-3 addresses per transaction (the duplicate must show); chains of 12 "
+            "requests over both branches, two accounts, three scopes; "
+            "random: 2-8 calls (API/scope/account mix, warm-up requests, used tip, cached or uncached account, sometimes a recovery), "
+            "all or some gated, random orders of call starts and gate releases, and ungated stress runs with 6-16 goroutines plus "
+            "read-only observers.  Two database modes (tag db_*): the proxy runs the OnCommit handlers itself after the real commit "
+            "(every window placement scriptable), or bdb/bbolt runs them in its own Commit (real commit ordering; the gate is then "
+            "the first commit handler).  Observed: every returned address mapped to its derivation index by a RESTARTED manager, "
+            "the order of begin/commit/rollback/handlers events (the schedule), key counts, last address of each branch and the "
+            "address cache of the running wallet vs a fresh waddrmgr.Open on a copy of the file, and the address that restarted "
+            "manager hands out next.  non-trivial = at least two requests derived from the same account branch; distinct by input")
     N_QUICK = 60
     N_THOROUGH = 1500
     SHARD = 400
@@ -35,38 +62,149 @@ class C09(Check):
         "atomicity and exclusivity of the bbolt write transaction (one writer; commit releases the writer lock before the "
         "commit handlers run) are taken from bbolt tx.go / walletdb/bdb and modelled as the steps Begin/Commit/Callback",
         "a step of the model is atomic: Read+Write happen under the scoped manager's own mutex and inside the write transaction",
+        "a recovery batch transaction commits (a rolled back one leaves extendAddresses' eager memory update behind: the "
+        "known C08/C10 finding, not a scheduling matter)",
     ]
     PARTIAL_CLAUSES = [
         "Go scheduler and memory model are not modelled: the theorem is about the lock-level protocol "
-        "(newAddrMtx, bbolt writer lock, commit handler), for all interleavings of its atomic steps",
-        "the site table is a syntactic (go/ast) check of wallet/*.go: Lock precedes the walletdb.Update statement, Unlock is "
-        "deferred or follows it; calls through function values/interfaces and the use of addrMgrWithChangeSource's closure "
-        "outside the transaction that created it are not tracked (the extractor refuses function values of issuing functions)",
+        "(address mutex incl. read locks, bbolt writer lock, commit handler), for all interleavings of its atomic steps; the "
+        "thorough tier additionally runs the scenarios under the Go race detector (oracle kind data_race)",
+        "the site table is a static check (go/ast + go/types over every package of the repository): call graph with closures "
+        "folded into the function creating them, references counted as calls, interface calls resolved by method name; the "
+        "hand-over of a CreateSimpleTx request to the transaction-creator goroutine is a channel, not a call (the site is the "
+        "function that opens the transaction); code outside the repository calling ScopedKeyManager directly is not covered",
         "one counter per theorem instance (one scope/account/branch); requests on other branches appear as threads that "
-        "take the locks and derive nothing",
-        "address requests only: recovery (extendFoundAddresses -> Extend*Addresses, eager in-memory update) does not take "
-        "newAddrMtx and is outside this property's quantifier",
+        "take the locks and derive nothing; all branches of a scenario are compared, and addresses are compared across all of them",
+        "the witness that recovery needs the mutex is proved for a concrete start index (5), not for all",
     ]
     EXTRA_TRUSTED = [
-        "harness/cmd/extract-c09 (go/ast site-table extractor) and harness/internal/proxydb (OnCommit handlers are run by the "
-        "proxy after the real commit, in bbolt's order)",
-        "lib/extract_c09.py: a site whose locking shape the go/ast reader does not recognise gets its `held` flag from a "
+        "harness/cmd/extract-c09 (site-table extractor; third-party imports are type-checked as empty stand-ins) and "
+        "harness/internal/proxydb (default mode: OnCommit handlers are run by the proxy after the real commit, in bbolt's order; "
+        "native mode: bbolt runs them)",
+        "lib/extract_c09.py: a site whose locking shape the reader does not recognise gets its `held` flag from a "
         "behavioural probe of the built code (gated two-request scenario, several partners and repetitions, scope 84 / "
         "account 0 / imported account only); evidence fields facts_source / facts_source_per_site say which path ran",
+        "the stand-in issuer (RawNext*) run in place of an issuing site the harness cannot call by name: same primitive, "
+        "same absence of the mutex, not the site's own code",
     ]
 
+    # ------------------------------------------------------------ arguments
+    def calibration(self):
+        """which table site each request kind of the harness goes through (asked of the built code)"""
+        exe = os.path.join(WORK, "bin", self.vh_cmd())
+        cp = os.path.join(WORK, "c09_calibration.json")
+        try:
+            c = json.load(open(cp))
+            if c.get("mtime") == os.path.getmtime(exe):
+                return c["cal"]
+        except (OSError, ValueError, KeyError):
+            pass
+        p = subprocess.run([exe, "-calibrate"], cwd=WORK, env=GOENV, stdout=subprocess.PIPE, stderr=subprocess.PIPE,
+                           text=True, timeout=300)
+        if p.returncode != 0 or not p.stdout.strip():
+            return {}
+        cal = json.loads(p.stdout.splitlines()[0])["calibration"]
+        with open(cp, "w") as f:
+            json.dump(dict(mtime=os.path.getmtime(exe), cal=cal), f)
+        return cal
+
+    def standins(self):
+        """issuing sites of the table that do not hold the mutex and that no request kind of the harness goes
+        through: an issuer of the same shape is run in their place"""
+        table, _ = read_table()
+        cal = self.calibration()
+        driven = {f for ent in cal.values() for f in ent.get("stack", [])}
+        out = []
+        for name, st in sorted(table.items()):
+            if st["cls"] == "issue" and not st["held"] and name not in driven:
+                out.append(dict(site=name, branch="both"))
+        return out
+
     def gen_args(self, tier, seed):
+        extra = []
+        si = self.standins()
+        if si:
+            extra = ["-standin", json.dumps(si)]
         if tier == "quick":
-            return [[self.vh_cmd(), "-n", str(self.N_QUICK), "-seed", str(seed), "-tier", tier]]
+            return [[self.vh_cmd(), "-n", str(self.N_QUICK), "-seed", str(seed), "-tier", tier] + extra]
         per = self.N_THOROUGH // 3
-        return ([[self.vh_cmd(), "-n", str(per), "-seed", str(seed + k), "-tier", tier] for k in range(2)] +
+        sets = ([[self.vh_cmd(), "-n", str(per), "-seed", str(seed + k), "-tier", tier] + (extra if k == 0 else []) for k in range(2)] +
                 [[self.vh_cmd(), "-n", str(per), "-seed", str(seed + 7), "-tier", tier, "-stress-only"]])
+        race = self.build_race()
+        if race:
+            sets.append([self.vh_cmd(), "-n", "120", "-seed", str(seed + 11), "-tier", tier, "-child-exe", race, "-procs", "4"])
+            sets.append([self.vh_cmd(), "-n", "150", "-seed", str(seed + 12), "-tier", tier, "-stress-only", "-child-exe", race, "-procs", "4"])
+        return sets
+
+    def build_race(self):
+        """thorough tier: the harness built with the Go race detector (needs cgo); None + a note in the evidence if
+        that is not possible here"""
+        info = dict(built=False)
+        exe = os.path.join(WORK, "bin", "c09-race")
+        try:
+            with Lock("go"):
+                modflag = []
+                if REPO != "/repo":
+                    modflag = ["-modfile=" + os.path.join(WORK, "alt.mod")]
+                env = dict(GOENV, CGO_ENABLED="1")
+                p = subprocess.run(["go", "build", "-race"] + modflag + ["-tags", "verif", "-o", exe, "./cmd/c09"], cwd=HARNESS,
+                                   env=env, stdout=subprocess.PIPE, stderr=subprocess.PIPE, text=True, timeout=1800)
+            if p.returncode == 0:
+                info = dict(built=True, cmd="CGO_ENABLED=1 go build -race -tags verif ./cmd/c09")
+            else:
+                info = dict(built=False, why=(p.stdout + p.stderr)[-600:])
+        except (OSError, subprocess.SubprocessError) as e:
+            info = dict(built=False, why=str(e))
+        os.makedirs(os.path.join(WORK, self.ID), exist_ok=True)
+        with open(os.path.join(WORK, self.ID, "race_info.json"), "w") as f:
+            json.dump(info, f)
+        return exe if info["built"] else None
+
+    # ------------------------------------------------------------- findings
+    def oracle_kinds(self, case):
+        table, _ = read_table()
+        return [(k, self.kind_site(case, k, table)) for k in case.get("oracle", [])]
+
+    def kind_site(self, case, kind, table):
+        """the site a violation kind is attributed to: the source site a stand-in issuer represents; for a
+        duplicate the site of the request that received an address somebody already had; for the kinds a
+        recovery can cause, the recovery's site if one committed in the scenario; else the harness's guess"""
+        i, o = case["in"], case["obs"]
+        if i.get("stand_in"):
+            return i["stand_in"]
+        calls = o["calls"] + (o.get("post") or [])
+        if kind == "duplicate_address":
+            seen = set()
+            for cl in calls:
+                if cl["err"] or not cl["commits"] or cl["n"] == 0 or cl["api"] in RECOVER:
+                    continue
+                if any(a in seen for a in cl.get("addrs") or []):
+                    return self.site_name(cl, table) or cl["site"]
+                seen.update(cl.get("addrs") or [])
+        if kind != "data_race":
+            for cl in o["calls"]:
+                if cl["api"] in RECOVER and cl["commits"] and not cl["err"]:
+                    return self.site_name(cl, table)
+        return case.get("site", "*") if kind != "duplicate_address" else "*"
 
     # ---------------------------------------------------------------- model
-    def branch_cases(self, c):
+    def site_name(self, cl, table):
+        """table name of the site a call went through: the first repository function on the stack at Begin
+        that is in the table; "" for the harness's own mutex-less issuer; else the innermost function (not in
+        the table: the comparison then fails, the implementation issued through a transaction the table does not know)"""
+        if cl["api"].startswith("RawNext"):
+            return ""
+        for f in cl.get("stack") or []:
+            if f in table:
+                return f
+        st = cl.get("stack") or []
+        return st[0] if st else "?" + cl["api"]
+
+    def branch_cases(self, c, table):
         """One Coq ccase per account branch some request derived from (or that changed)."""
         i, o = c["in"], c["obs"]
         calls = o["calls"]
+        post = o.get("post") or []
         tid = {}
         for k, cl in enumerate(calls):
             if cl["tx"]:
@@ -78,29 +216,68 @@ class C09(Check):
                 continue
             # an event of a transaction nobody owns is rendered as an impossible label
             labels.append("%s %d" % (name, tid.get(ev["call"], 999)))
+        # the sequential requests made afterwards: further threads, run to completion one after the other
+        ptid = {}
+        for k, cl in enumerate(post):
+            t = len(tid) + k
+            ptid[k] = t
+            if cl["err"]:
+                labels += ["LBegin %d" % t, "LRollback %d" % t]
+            else:
+                labels += ["LBegin %d" % t, "LCommit %d" % t, "LCallbacks %d" % t]
         out = []
         for b in o["branches"]:
             key = (b["scope"], b.get("account", 0), b["branch"])
-            mine = [k for k in tid if static_branch(i["calls"][k]) == key and calls[k]["n"] > 0]
-            if not mine and b["mem_after"] == b["n0"] and b["disk_after"] == b["n0"]:
+            mine = [k for k in tid if static_branch(i["calls"][k]) == key and (calls[k].get("derived", calls[k]["n"]) > 0 or calls[k]["api"] in RECOVER)]
+            pmine = [k for k in ptid if static_branch(i["post"][k]) == key]
+            if not mine and not pmine and b["mem_after"] == b["n0"] and b["disk_after"] == b["n0"]:
                 continue
             threads, obs = [], []
+
+            def thread(cl, spec, is_mine, t):
+                n, ext = 0, "None"
+                if is_mine:
+                    if cl["api"] in RECOVER:
+                        ext = "(Some %s)" % cN(max(cl["found"], 0))
+                    else:
+                        n = cl.get("derived", cl["n"])
+                threads.append('{| ct_site := "%s"; ct_n := %s; ct_commits := %s; ct_ext := %s |}' % (
+                    self.site_name(cl, table), cN(n), cbool(cl["commits"]), ext))
+                if is_mine and cl["commits"] and not cl["err"] and cl["api"] not in RECOVER:
+                    for idx in cl.get("indices") or [cl["index"]]:
+                        if idx < 0 or (cl["scope"], cl.get("account", 0), cl["branch"]) != key:
+                            idx = 4000000000    # obtained something that is not on the branch the API draws from
+                        obs.append("(%d%%nat, %s)" % (t, cN(idx)))
+
             for k in sorted(tid, key=lambda k: tid[k]):
-                cl = calls[k]
-                n = cl["n"] if k in mine else 0
-                threads.append('("%s", %s, %s)' % (cl["site"], cN(n), cbool(cl["commits"])))
-                if k in mine and cl["commits"] and not cl["err"]:
-                    idx = cl["index"]
-                    if idx < 0 or (cl["scope"], cl.get("account", 0), cl["branch"]) != key:
-                        idx = 4000000000    # obtained something that is not on the branch the API draws from
-                    obs.append("(%d%%nat, %s)" % (tid[k], cN(idx)))
-            out.append("{| c_n0 := %s; c_cached := %s; c_threads := %s;\n     c_sched := %s;\n     c_obs := %s; c_mem_after := %s; c_disk_after := %s; c_strict := %s |}" % (
-                cN(b["n0"]), cbool(b["cached"]), clist(threads), clist(labels), clist(obs),
-                cN(b["mem_after"]), cN(b["disk_after"]), cbool(i.get("kind") != "stress")))
+                thread(calls[k], i["calls"][k], k in mine, tid[k])
+            for k in sorted(ptid):
+                cl = post[k]
+                n, t = (1 if (k in pmine and not cl["err"]) else 0), ptid[k]
+                threads.append('{| ct_site := "%s"; ct_n := %s; ct_commits := %s; ct_ext := None |}' % (
+                    self.site_name(cl, table), cN(n), cbool(not cl["err"])))
+                if k in pmine and not cl["err"]:
+                    for idx in cl.get("indices") or [cl["index"]]:
+                        if idx < 0 or (cl["scope"], cl.get("account", 0), cl["branch"]) != key:
+                            idx = 4000000000
+                        obs.append("(%d%%nat, %s)" % (t, cN(idx)))
+            lm = b.get("last_mem", [-2, -2])
+            if lm[0] == -2:
+                last = "None"
+            elif lm[0] == b["branch"] and lm[1] >= 0:
+                last = "(Some %s)" % cN(lm[1])
+            else:
+                last = "(Some %s)" % cN(4000000001)      # the last address reported is not an address of this branch
+            out.append("{| c_n0 := %s; c_cached := %s; c_threads := %s;\n     c_sched := %s;\n     c_obs := %s; c_mem_after := %s; "
+                       "c_disk_after := %s; c_last_mem := %s; c_cache := %s; c_strict := %s |}" % (
+                           cN(b["n0"]), cbool(b["cached"]), clist(threads), clist(labels), clist(obs),
+                           cN(b["mem_after"]), cN(b["disk_after"]), last, clist([cN(x) for x in b.get("cache", [])]),
+                           cbool(i.get("kind") != "stress")))
         return out
 
     def render_cases(self, cases):
-        rows = [clist(self.branch_cases(c)) for c in cases]
+        table, _ = read_table()
+        rows = [clist(self.branch_cases(c, table)) for c in cases]
         return """From Coq Require Import String.
 From Verif Require Import Base.Prelude Addr.Conc Addr.ConcCorr.
 Local Open Scope string_scope.
@@ -115,16 +292,18 @@ Print bad.
     def nontrivial(self, c):
         per = {}
         for k, cl in enumerate(c["obs"]["calls"]):
-            if cl["tx"] and cl["n"] > 0:
+            if cl["tx"] and (cl["n"] > 0 or cl["api"] in RECOVER):
                 key = static_branch(c["in"]["calls"][k])
                 per[key] = per.get(key, 0) + 1
         return any(v >= 2 for v in per.values())
 
     def sample(self, c):
         return dict(calls=[(x["api"], x["scope"], x.get("account", 0), x["gate"]) for x in c["in"]["calls"]], kind=c["in"].get("kind"),
+                    native=c["in"].get("native", False),
                     script=[(s["op"], s["call"]) for s in c["in"]["script"]],
                     schedule=[(e["ev"], e["call"]) for e in c["obs"]["events"]],
-                    obtained=[(x["api"], x["addr"], x["index"], x["n"], x["commits"]) for x in c["obs"]["calls"]],
+                    obtained=[(x["api"], x["site"], x["addr"], x.get("indices"), x["n"], x["commits"]) for x in c["obs"]["calls"]],
+                    post=[(x["api"], x.get("indices")) for x in c["obs"].get("post") or []],
                     oracle=c["oracle"])
 
     def extra_coverage(self, cases):
@@ -132,22 +311,30 @@ Print bad.
         gated = sum(1 for c in cases if any(x["gate"] for x in c["in"]["calls"]))
         notes = sum(1 for c in cases if c["obs"]["notes"])
         # which path of lib/extract_c09.py produced the per-site `held` flags of this run
-        src, per_site = "unknown", {}
+        table, src = read_table()
+        native = [c for c in cases if c["in"].get("native")]
+        race = dict(built=False, why="not run in this tier")
         try:
-            txt = open(os.path.join(COQ, "Generated", "AddrSites.v")).read()
-            m = re.search(r"\(\* facts source: (\w+)", txt)
-            if m:
-                src = m.group(1)
-            for m in re.finditer(r'site_name := "([^"]+)".*?held := (\w+); held_from := "(\w+)"', txt, re.S):
-                per_site[m.group(1)] = dict(held=m.group(2) == "true", source=m.group(3))
-        except OSError:
+            race = json.load(open(os.path.join(WORK, self.ID, "race_info.json")))
+        except (OSError, ValueError):
             pass
+        race["scenarios_run_under_the_race_detector"] = sum(1 for c in cases if "run_under_race_detector" in c.get("tags", []))
+        race["scenarios_with_a_race_report"] = sum(1 for c in cases if c["obs"].get("race_reports"))
         return dict(
-            facts_source=src, facts_source_per_site=per_site,
+            facts_source=src,
+            facts_source_per_site={k: dict(held=v["held"], shared=v["shared"], source=v["source"], cls=v["cls"], pkg=v["pkg"])
+                                   for k, v in table.items()},
+            packages_of_sites=sorted({v["pkg"] for v in table.values()}),
             scenarios_with_gate=gated,
             scenarios_where_a_request_waited_for_the_mutex_while_another_sat_between_commit_and_handlers=in_window,
             scenarios_with_harness_notes=notes,
+            scenarios_db_native_commit_order=len(native),
+            scenarios_db_proxy_runs_handlers=len(cases) - len(native),
+            negative_controls=sum(1 for c in cases if "negative_control" in c.get("tags", [])),
+            negative_controls_showing_the_duplicate=sum(1 for c in cases if "duplicate_address" in (c["obs"].get("control") or [])),
+            stand_in_scenarios=sum(1 for c in cases if "stand_in_for_source_site" in c.get("tags", [])),
             addresses_issued=sum(len(b["issued"]) for c in cases for b in c["obs"]["branches"]),
+            race_detector=race,
         )
 
     # --------------------------------------------------------------- shrink
@@ -155,6 +342,8 @@ Print bad.
         """Greedy removal of calls (with their script steps) while the same
         violation kind is still produced by the real code."""
         best = case
+        if kind == "data_race":
+            return best
         budget = 40
         changed = True
         while changed and budget > 0:
